@@ -53,7 +53,7 @@ func packScenario(logN, minLogN int, ch rk.Chain, bound int) engine.Scenario {
 		inNTT := c.Choose(2, "IsNTT") == 0
 		c.Cover("pack-keys", map[bool]string{false: "plain", true: "compressed-then-expanded"}[kp.compressed])
 		c.Cover("pack-IsNTT", fmt.Sprint(inNTT))
-		level := kp.levelQ                // the smaller parameter sets only have LevelQ+1 primes
+		level := kp.levelQ // the smaller parameter sets only have LevelQ+1 primes
 		cfg := fmt.Sprintf("RingPacking.%s %s variant=%d IsNTT=%v", op, kp, variant, inNTT)
 		c.Note("%s", cfg)
 		c.Cover("op", "RingPacking."+op)
